@@ -22,8 +22,9 @@ LEVEL = 'exploration'
 VERSION = 1
 BUDGET = {'quick': 50, 'thorough': 600}
 CHUNK = {'quick': 15, 'thorough': 30}
-RULE = ('one case = one seeded history of 5-60 store / bulk store / load / bulk load / is_cached / remove / reopen '
-        'operations over <= 12 addresses drawn from a collision catalogue (level 0, bundle borders 127/128, path digit '
+RULE = ('one case = one seeded history of 5-60 store / bulk store / load / load with metadata / bulk load / is_cached / '
+        'remove / bulk remove / reopen / switch-to-a-second-cache-object-on-the-same-store (another process\'s view; the '
+        'first object stays open) operations over <= 12 addresses drawn from a collision catalogue (level 0, bundle borders 127/128, path digit '
         'groups 999/1000, 9999/10000, 999999/1000000, equal x/y at different levels, x/y swapped, dimension sets '
         'differing in one value, equal single colours) on one backend+layout, optionally with one injected I/O error '
         'inside a mutating call; non-trivial = the history overwrote or removed a present address and later read it '
